@@ -390,6 +390,24 @@ def send_outcome(radio, agg, lite=False):
     return n
 
 
+def send_with_real_resend(radio, agg, lite=False):
+    """R02.9 across the send()/resend()/read() boundary: one forced retry with resend() and read() inlined"""
+    f = radio.prog.method(radio.cls, "send")
+    n = 0
+    for so in (False, True):
+        n += 1
+        st = set_status(radio, radio.fresh({contract.DYNPD: 0x3F, contract.FEATURE: 0x07, contract.EN_AA: 0x3F}), 0x0E)
+        outs = radio.run(f, [param_buf(length=5), False, 1, so], st, limits=Limits(max_paths=200000, loop_unroll=1))
+        freshness(radio, agg, f, outs, need_load=True)
+        for out in outs:
+            if out.kind != "return" or not tx_loads(out):
+                continue
+            rds = [e for e in out.trace if e.kind == "cmdreadn" and const_of(norm(e.data[0])) == regmap.R_RX_PAYLOAD]
+            agg.add("R02.3", f, "at most one ACK payload is fetched per send() (a forced retry's ACK payload is not read twice)", len(rds) <= 1,
+                    "send(force_retry=1, send_only=%r): %d R_RX_PAYLOAD commands on one path" % (so, len(rds)), rds[1].node if len(rds) > 1 else None)
+    return n
+
+
 def _ack_guard(out, f):
     """the path passed a true test on STATUS bits 6 and 5 inside f"""
     need = set()
